@@ -229,6 +229,71 @@ class Oracles:
                             return why
             child = p
             p = getattr(p, "parent", None)
+        # a private helper with a single call site inherits the guards around that call (an `if code in T1:` branch whose body
+        # was extracted into a function): the key expression is translated through the parameter -> argument binding
+        if getattr(self, "_sg_depth", 0) < 2 and f.cls is None and f.parent is None and f.name.startswith("_"):
+            cg = getattr(getattr(self, "ea", None), "cg", None)
+            sites = [cs for cs in (cg.callers_of(f) if cg is not None else []) if isinstance(cs.node, ast.Call)]
+            if len(sites) == 1:
+                call = sites[0].node
+                params = [a.arg for a in f.node.args.posonlyargs + f.node.args.args]
+                if len(call.args) == len(params) and not call.keywords and all(isinstance(a, (ast.Name, ast.Attribute)) for a in call.args):
+                    import re as _re
+
+                    key2 = key
+                    for prm, arg in zip(params, call.args):
+                        key2 = _re.sub(rf"\b{_re.escape(prm)}\b", ast.unparse(arg), key2)
+                    fake = ast.Subscript(value=node.value, slice=ast.parse(key2, mode="eval").body, ctx=ast.Load())
+                    fake.parent = getattr(call, "parent", None)  # type: ignore[attr-defined]
+                    # walk from the call's position: the fake node stands where the call is
+                    st = call
+                    while not isinstance(st, ast.stmt):
+                        st = st.parent  # type: ignore[attr-defined]
+                    fake.parent = st.parent  # type: ignore[attr-defined]
+                    par = st.parent  # type: ignore[attr-defined]
+                    for fld in ("body", "orelse", "finalbody"):
+                        blk = getattr(par, fld, None)
+                        if isinstance(blk, list) and st in blk:
+                            blk_copy = blk
+                            idx = blk_copy.index(st)
+                            self._sg_depth = getattr(self, "_sg_depth", 0) + 1
+                            try:
+                                # temporarily let the fake node answer `child in p.body` through the statement it stands for
+                                why = self._subset_guard_at(sites[0].caller, st, key2, cont)
+                            finally:
+                                self._sg_depth -= 1
+                            if why:
+                                why = f"{why} (at the only call of {f.name}())"
+                                self.used[f"subset-guard:{f.qualname}:{ast.unparse(node)}"] = why
+                                return why
+                            _ = idx
+        return None
+
+    def _subset_guard_at(self, f: FuncInfo, stmt: ast.AST, key: str, cont: dict) -> str | None:
+        """`key in T1` with T1 ⊆ keys(cont) known at a statement: an enclosing if-arm, or an earlier sibling that leaves otherwise."""
+        child: ast.AST = stmt
+        p = getattr(stmt, "parent", None)
+
+        def members_ok(t: ast.expr) -> str | None:
+            if isinstance(t, ast.Compare) and len(t.ops) == 1 and isinstance(t.ops[0], ast.In) and ast.unparse(t.left) == key:
+                try:
+                    tab = self.consts.eval_in(f, t.comparators[0])
+                except Exception:
+                    return None
+                if tab is not TOP and isinstance(tab, (set, frozenset, list, tuple, dict)) and set(tab) <= set(cont):
+                    return f"guarded by `{ast.unparse(t)}` and all {len(set(tab))} members are keys of the table"
+            return None
+
+        while p is not None and not isinstance(p, ast.Module):
+            if isinstance(p, ast.If) and child in p.body:
+                for t in ast.walk(p.test) if isinstance(p.test, ast.BoolOp) and isinstance(p.test.op, ast.And) else [p.test]:
+                    w = members_ok(t)
+                    if w:
+                        return w
+            if isinstance(p, (ast.FunctionDef, ast.AsyncFunctionDef)):
+                break
+            child = p
+            p = getattr(p, "parent", None)
         return None
 
     # -- X.popleft()/X.pop() inside `if len(X) > k` (k >= 0) -------------------------------------
